@@ -178,6 +178,18 @@ class EventHandler(abc.ABC):
         if uri and not prefix_exists(uri, self.ns_map):
             generate_prefix(uri, self.ns_map)
 
+    def add_attribute_namespace(self, uri: str | None) -> None:
+        """Add the given attribute uri to the current namespace context.
+
+        The default namespace doesn't apply to attributes, if the uri is
+        empty or a non default prefix already exists, skip silently.
+
+        Args:
+            uri: The attribute namespace URI
+        """
+        if uri and not any(prefix and ns == uri for prefix, ns in self.ns_map.items()):
+            generate_prefix(uri, self.ns_map)
+
     def set_data(self, data: Any) -> None:
         """Set data notification receiver.
 
@@ -246,7 +258,7 @@ class EventHandler(abc.ABC):
             self.attrs.pop(XSI_NIL, None)
 
         for name in self.attrs:
-            self.add_namespace(name[0])
+            self.add_attribute_namespace(name[0])
 
         self.reset_default_namespace()
         self.start_namespaces()
